@@ -54,7 +54,7 @@ func genBytes(t *rapid.T, base []byte, label string) []byte {
 
 func TestHostileBytes(t *testing.T) {
 	t.Parallel()
-	evid.Checks(4000, 100000)
+	evid.Checks(15000, 300000)
 	rapid.Check(t, func(t *rapid.T) {
 		evid.Eval(1)
 		switch rapid.IntRange(0, 3).Draw(t, "target") {
@@ -111,7 +111,7 @@ func TestHostileBytes(t *testing.T) {
 
 func TestHostileSDPStillUsable(t *testing.T) {
 	t.Parallel()
-	evid.Checks(1500, 40000)
+	evid.Checks(5000, 100000)
 	rapid.Check(t, func(t *rapid.T) {
 		evid.Eval(1)
 		o := genSDPOpts(t)
